@@ -1,4 +1,5 @@
 import EaselModel.Dsqdata.ShortRead
+import EaselModel.Dsqdata.FormatLemmas
 /-! # Cutting a data file short: what the byte-level loader does with `.dsqs` / `.dsqm` truncated at an arbitrary byte.
 
 `cut_sfp_run` / `cut_mfp_run`: run the loader on the same index with the packet file (resp. the metadata file) cut after `m` bytes.
@@ -225,5 +226,70 @@ theorem readDb_runX (maxseq : Nat) (maxpacket : Int) (o : Opened) (out : List (B
     exact Prod.ext rfl he
   · rw [if_neg he] at h
     cases h
+
+theorem take_hdr (a b : Nat) (rest : List UInt8) (m : Nat) :
+    (le32 a ++ le32 b ++ rest).take (8 + m) = le32 a ++ le32 b ++ rest.take m := by
+  have h8 : (le32 a ++ le32 b).length = 8 := by simp [le32]
+  rw [← h8, List.take_length_add_append]
+
+/-- **`esl_dsqdata_Open` on written files whose `.dsqs` (resp. `.dsqm`) was cut `m` bytes behind its 8-byte header**: accepted, with the
+    same header values; only the unread part of that file is shorter -/
+theorem openDb_cut (tag alphatype : Nat) (fname fmt : List UInt8) (db : List SeqRec)
+    (hty : alphatype = 1 ∨ alphatype = 2 ∨ alphatype = 3) (hlen : ∀ r ∈ db, r.dsq.length < 6 * MAXPACKET)
+    (expect : Option Nat) (hexp : expect = none ∨ expect = some alphatype) (m : Nat) :
+    ∃ f, writeDb tag alphatype fname fmt db = .ok f ∧
+      openDb expect { f with seq := f.seq.take (8 + m) } =
+        .ok { writtenHeader tag alphatype (alphatype == 3) db with sfp := (writtenHeader tag alphatype (alphatype == 3) db).sfp.take m } ∧
+      openDb expect { f with mdat := f.mdat.take (8 + m) } =
+        .ok { writtenHeader tag alphatype (alphatype == 3) db with mfp := (writtenHeader tag alphatype (alphatype == 3) db).mfp.take m } := by
+  have hany : db.any (fun r => decide (r.dsq.length ≥ 6 * MAXPACKET)) = false := by
+    rw [List.any_eq_false]
+    intro r hr
+    have := hlen r hr
+    simp only [ge_iff_le, decide_eq_true_eq]; omega
+  have hne : ¬ (alphatype ≠ 3 ∧ alphatype ≠ 2 ∧ alphatype ≠ 1) := by omega
+  refine ⟨_, by simp only [writeDb, hany, hne, Bool.false_eq_true, if_false]; rfl, ?_, ?_⟩
+  all_goals
+    have hM : MAGIC % 4294967296 = MAGIC := by decide
+    have hMS : ¬ (MAGIC = MAGIC_SWAP) := by decide
+    have hA : alphatype % 4294967296 = alphatype := by omega
+    simp only [openDb, take_hdr, parseStub_stubLine1, rdFields_idx, rdFields_two, List.getD_cons_zero, List.getD_cons_succ, hM, hMS, hA,
+      ne_eq, not_true_eq_false, if_false]
+    rcases hexp with rfl | rfl
+    · have h1 : ¬ (alphatype = 0 ∨ alphatype > 6) := by omega
+      have h2 : ¬ (alphatype = 6) := by omega
+      simp only [h1, h2, if_false, writtenHeader, Nat.zero_mod]
+    · simp only [not_true_eq_false, if_false, writtenHeader, Nat.zero_mod]
+
+/-- the chunks that tile a database from record `pos` on hold `db.length - pos` sequences -/
+theorem tiles_count (amino : Bool) (db : List SeqRec) (maxseq : Nat) (maxpacket : Int) :
+    ∀ (out : List (BChunk × List SeqRec)) (pos : Nat), Tiles amino db maxseq maxpacket pos out → pos ≤ db.length →
+      pos + (out.map (·.1.n)).sum = db.length
+  | [], pos, h, hp => by simp only [Tiles] at h; simp; omega
+  | (c, rs) :: rest, pos, h, _ => by
+    obtain ⟨_, _, _, _, hle, _, _, _, _, ht⟩ := h
+    have := tiles_count amino db maxseq maxpacket rest (pos + c.n) ht hle
+    simp only [List.map_cons, List.sum_cons]
+    omega
+
+/-- **The loader's end-of-data check passes on what `esl_dsqdata_Write` wrote**: the number of sequences in the chunks of the written
+    database is the `nseq` of its index header (fewer than `2^64` sequences), so `readDbX` - the loader with the check - ends with
+    end of data, not with `fatalIndex`. -/
+theorem readDbX_written (tag alphatype : Nat) (db : List SeqRec) (maxseq : Nat) (maxpacket : Int)
+    (hwf : ∀ r ∈ db, r.Wf) (hms : 1 ≤ maxseq)
+    (hfit : ∀ r ∈ db, ((pk (alphatype == 3) r.dsq).length : Int) ≤ maxpacket)
+    (h1 : (psOf (alphatype == 3) db).sum < 9223372036854775808) (h2 : (msOf db).sum < 9223372036854775808)
+    (hn : db.length < 18446744073709551616) :
+    (readDbX maxseq maxpacket (writtenHeader tag alphatype (alphatype == 3) db)).2 = .eof := by
+  obtain ⟨out, hr, ht⟩ := readDb_written tag alphatype db maxseq maxpacket hwf hms hfit h1 h2
+  have hrun := readDb_runX maxseq maxpacket _ out hr
+  have hc := tiles_count (alphatype == 3) db maxseq maxpacket out 0 ht (Nat.zero_le _)
+  have hnseq : (writtenHeader tag alphatype (alphatype == 3) db).nseq = db.length := by
+    simp only [writtenHeader]; exact Nat.mod_eq_of_lt hn
+  have hsum : (List.map ((fun x => x.n) ∘ fun x => x.fst) out).sum = db.length := by
+    have e : ((fun (x : BChunk) => x.n) ∘ fun (x : BChunk × List SeqRec) => x.fst) = fun x => x.fst.n := rfl
+    rw [e]; omega
+  simp only [readDbX, hrun, List.map_map]
+  simp [hnseq, hsum]
 
 end EaselModel.Dsqdata
